@@ -347,6 +347,7 @@ def run_check(prop, tier, seed, replay):
         'repo': repo_fingerprint(),
         'build': {k: st[k] for k in ('harness', 'extract', 'lean', 'harness_s', 'harness_race_s', 'lean_s') if k in st},
         'known_findings_hit': [k['id'] for (k, _) in known_hits],
+        'violation_samples': [{'msg': m[:500], 'replay': rp, 'no_failing_input': nf} for (m, rp, nf) in final[:8]],
         'explanation': P.get('explanation') or P.get('claim', P.get('claim_draft', '')),
     }
     if level == 'proof' and not thms:
